@@ -33,7 +33,8 @@ theorem C09_ledger (v : Variant) (c : Cmd) (g : Nat) (L0 : List (Nat × Res)) (h
   obtain ⟨r, hr, rfl⟩ := List.mem_map.1 hx
   exact command_residue v c hend hg r hr
 
-/-- C09 (ledger) with the `teardown` repair: the ledger after = the ledger before, on every exit path that ends the pipeline -/
+/-- C09 (ledger), HEADLINE — the code as it is since /repo 84fd7b3 (`teardown` in): the ledger after = the ledger before, on every
+exit path that ends the pipeline -/
 theorem C09_balanced (v : Variant) (hv : v.teardown = true) (c : Cmd) (g : Nat) (L0 : List (Nat × Res)) (hf : Foreign g L0)
     (hend : endCalled c = true) (hab : c.endAborts = false) :
     runRes L0 (atGen g (command v c).all) = L0 := by
@@ -42,7 +43,7 @@ theorem C09_balanced (v : Variant) (hv : v.teardown = true) (c : Cmd) (g : Nat) 
   | nil => simpa using h1
   | cons x xs => have := (h2 x (by simp)).1; rw [hab] at this; cases this
 
-/-- C09 (ledger), the code AS IT IS: the same, with the exact guard the proof forces — no stage other than the first fails
+/-- C09 (ledger), PINNED SNAPSHOT (the code before /repo 84fd7b3, `Variant.asIs`): the same, with the exact guard the proof forced — no stage other than the first fails
 to start (`C09_cex_late_start_failure` shows the guard cannot be dropped) -/
 theorem C09_balanced_partial (c : Cmd) (g : Nat) (L0 : List (Nat × Res)) (hf : Foreign g L0)
     (hend : endCalled c = true) (hab : c.endAborts = false)
@@ -53,7 +54,7 @@ theorem C09_balanced_partial (c : Cmd) (g : Nat) (L0 : List (Nat × Res)) (hf : 
   | nil => simpa using h1
   | cons x xs => have := (h2 x (by simp)).1; rw [hab] at this; cases this
 
-/-- ... and the guard is EXACT: as the code is, a command that ends its pipeline (and whose `_end` is not left early) gives
+/-- ... and the guard is EXACT (pinned snapshot): as that code was, a command that ends its pipeline (and whose `_end` is not left early) gives
 everything back if AND ONLY IF no stage other than the first fails to start; when one does, the read end of the pipe of the
 stage just before it is still open (`late_failure_leaks`) -/
 theorem C09_leak_exact (c : Cmd) (g : Nat) (L0 : List (Nat × Res)) (hf : Foreign g L0)
@@ -81,7 +82,8 @@ def exOk : Cmd :=
 example : endCalled exOk = true ∧ exOk.endAborts = false ∧ (command .asIs exOk).startFailed = false ∧
     (command .asIs exOk).procs.length = 2 := by decide
 
-/-! ## the three places where the code as it is does not balance -/
+/-! ## where the ledger does not balance: `&` pipelines and an `_end` left early (still so), a late start failure and a failed
+build (pinned snapshot; repaired by /repo 84fd7b3 and 7dff01d — the second halves of the witnesses show the repaired variant) -/
 
 /-- `echo hi | nosuchcmd`: the second stage fails to start; the first one's pipe (both ends) and its child are never given back -/
 def cexLate : Cmd := ⟨[⟨.ext, [], true, true⟩, ⟨.ext, [], true, false⟩], .hidden, false, true, true, false, false⟩
@@ -160,7 +162,7 @@ example : (command .asIs cexHeld).why = .build ∧ HeldShape 0 ⟨0, .file 0⟩ 
 
 /-! ## signal handlers -/
 
-/-- C09 (handlers) with the `lifo` repair: for EVERY pipeline, whichever stage fails to start, and whether or not the body
+/-- C09 (handlers), HEADLINE — the code as it is since /repo 59f5309 (`lifo` in): for EVERY pipeline, whichever stage fails to start, and whether or not the body
 of `_end` is left early, once the pipeline has been ended the signal table is what it was and no proc object of the command
 remembers an old handler: saved = restored on every path -/
 theorem C09_handlers_restored (v : Variant) (hv : v.lifo = true) (c : Cmd) (hend : endCalled c = true)
@@ -168,7 +170,7 @@ theorem C09_handlers_restored (v : Variant) (hv : v.lifo = true) (c : Cmd) (hend
     runSig S (atGen g (command v c).all) = S :=
   command_sig_lifo (fun r => (g, r)) (fun k => (g, k)) (gen_key_injective g) v c hv hend S hS
 
-/-- C09 (handlers), the code AS IT IS, with the guard the proof forces: no started stage other than the last one swaps a
+/-- C09 (handlers), PINNED SNAPSHOT (the code before /repo 59f5309), with the guard the proof forced: no started stage other than the last one swaps a
 handler (a callable alias in front of the last stage does: `C09_cex_sigint`), and the body of `_end` is not left early
 while a handler is swapped (`C09_cex_abort_handlers`) -/
 theorem C09_handlers_restored_partial (c : Cmd) (hend : endCalled c = true)
@@ -255,7 +257,7 @@ theorem C09_repeat_handlers (v : Variant) (hv : v.lifo = true) (c : Cmd) (hend :
     rw [runSig_append, C09_handlers_restored v hv c hend g S (hS g (Nat.le_refl g))]
     exact ih (g + 1) S (fun g' hg' => hS g' (Nat.le_of_succ_le hg'))
 
-/-- as the code is, every `alias | cmd` leaves one more proc object in the chain behind SIGINT: after three of them the
+/-- pinned snapshot: as the code was before 59f5309, every `alias | cmd` left one more proc object in the chain behind SIGINT: after three of them the
 chain is three deep (the real session answers a Ctrl-C by walking that chain recursively: RecursionError after some hundreds) -/
 theorem C09_cex_sigint_chain :
     (runSig S0 (repeatCmd .asIs cexSigint 1 3)).saved.length = 3 ∧
